@@ -113,6 +113,41 @@ pub fn vx_alloc_zeroed(n: usize) -> (r: Vec<u8>)
     ensures r@.len() == n, forall |i: int| 0 <= i < n ==> r@[i] == 0u8,
 { vec![0u8; n] }
 
+/// C04 (R19): asking the allocator for capacity sized by client input is bounded like an allocation of that size
+/// (std: these calls request room for at least `len + additional` elements; elements are bytes in the codec's buffers)
+pub trait VxReserve: Sized {
+    spec fn vx_len(&self) -> nat;
+    fn vx_reserve(&mut self, additional: usize)
+        requires
+            alloc_ok(old(self).vx_len() + additional as nat), // @cl:C04.alloc.bound.reserve
+        ensures *final(self) == *old(self);
+    fn vx_reserve_exact(&mut self, additional: usize)
+        requires
+            alloc_ok(old(self).vx_len() + additional as nat), // @cl:C04.alloc.bound.reserve_exact
+        ensures *final(self) == *old(self);
+    fn vx_try_reserve(&mut self, additional: usize) -> (r: Result<(), std::collections::TryReserveError>)
+        requires
+            alloc_ok(old(self).vx_len() + additional as nat), // @cl:C04.alloc.bound.try_reserve
+        ensures *final(self) == *old(self);
+    fn vx_try_reserve_exact(&mut self, additional: usize) -> (r: Result<(), std::collections::TryReserveError>)
+        requires
+            alloc_ok(old(self).vx_len() + additional as nat), // @cl:C04.alloc.bound.try_reserve_exact
+        ensures *final(self) == *old(self);
+}
+impl<T> VxReserve for Vec<T> {
+    open spec fn vx_len(&self) -> nat { self@.len() }
+    #[verifier::external_body] fn vx_reserve(&mut self, additional: usize) { unimplemented!() }
+    #[verifier::external_body] fn vx_reserve_exact(&mut self, additional: usize) { unimplemented!() }
+    #[verifier::external_body] fn vx_try_reserve(&mut self, additional: usize) -> (r: Result<(), std::collections::TryReserveError>) { unimplemented!() }
+    #[verifier::external_body] fn vx_try_reserve_exact(&mut self, additional: usize) -> (r: Result<(), std::collections::TryReserveError>) { unimplemented!() }
+}
+#[verifier::external_body]
+pub fn vx_with_capacity<T>(n: usize) -> (r: Vec<T>)
+    requires
+        alloc_ok(n as nat), // @cl:C04.alloc.bound.with_capacity
+    ensures r@.len() == 0
+{ unimplemented!() }
+
 pub fn vx_starts_with_char(s: &str, c: char) -> (r: bool)
     ensures r == (s@.len() > 0 && s@[0] == c)
 {
